@@ -412,6 +412,51 @@ let handle_k = function
         else Printf.sprintf "%s %s" id (if items = [] then "-" else String.concat "," (List.map show items))
   | _ -> failwith "bad K line"
 
+(* MP <id> <trace>: the resource trace of the libyaml binding through the protocol monitor.
+   trace: comma list of I | A | c<len>:<size>:<bouncer> | R | D | F | e | d.  One run may create several parsers
+   one after another (detection, then translation): the monitor is restarted at every I after a clean state. *)
+let nat_cache : (string, nat) Hashtbl.t = Hashtbl.create 64
+let handle_mp = function
+  | [ id; tr ] ->
+      let parse s =
+        match s.[0] with
+        | 'I' -> MParserInit | 'A' -> MStateAlloc | 'R' -> MRefuse | 'D' -> MParserDelete | 'F' -> MStateFree
+        | 'e' -> MEventInit | 'd' -> MEventDelete
+        | 'c' -> (
+            match String.split_on_char ':' (String.sub s 1 (String.length s - 1)) with
+            | [ a; b; c ] ->
+                (* unary naturals are shared through a cache: the same buffer sizes recur in every event *)
+                let cached s =
+                  match Hashtbl.find_opt nat_cache s with
+                  | Some n -> n
+                  | None -> let n = nat_of_int (int_of_string s) in Hashtbl.replace nat_cache s n; n
+                in
+                MCopy (cached a, cached b, cached c)
+            | _ -> failwith "bad c")
+        | _ -> failwith "bad trace event"
+      in
+      let evs = List.map parse (split_on ',' tr) in
+      (* split into sessions at each parser initialisation *)
+      let rec sessions acc cur = function
+        | [] -> List.rev (if cur = [] then acc else List.rev cur :: acc)
+        | MParserInit :: rest -> sessions (if cur = [] then acc else List.rev cur :: acc) [ MParserInit ] rest
+        | e :: rest -> sessions acc (e :: cur) rest
+      in
+      let show_v = function
+        | VDoubleInit -> "double-init" | VUseAfterDelete -> "use-after-delete" | VUseBeforeInit -> "use-before-init"
+        | VDoubleFree -> "double-free" | VStateFreedBeforeParser -> "read-state-freed-before-parser"
+        | VCopyOutOfBounds -> "copy-out-of-bounds" | VEventUnderflow -> "event-deleted-twice"
+      in
+      let verdict =
+        List.fold_left
+          (fun acc s ->
+            if acc <> "ok clean" then acc
+            else match mrun m0 s with Ok st -> if mclean st then "ok clean" else "ok leak" | Err v -> "violation " ^ show_v v)
+          "ok clean" (sessions [] [] evs)
+      in
+      id ^ " " ^ verdict
+  | _ -> failwith "bad MP line"
+
 (* DT <id> <hex> <json 0|1> <yaml 0|1> <toml 0|1>: detect.rs over a slice, the MessagePack trial from the model,
    the other three trials answering as given *)
 let handle_dt = function
@@ -440,6 +485,7 @@ let () =
           | "FT" :: rest -> handle_ft rest
           | "FW" :: rest -> handle_fw rest
           | "K" :: rest -> handle_k rest
+          | "MP" :: rest -> handle_mp rest
           | "DT" :: rest -> handle_dt rest
           | "CP" :: rest -> handle_cp rest
           | "CR" :: rest -> handle_cr rest
